@@ -42,7 +42,7 @@ FLOORS = {'quick': {'evaluations': 40000, 'distinct_nontrivial': 20000,
           'thorough': {'evaluations': 400000, 'distinct_nontrivial': 200000,
                        'monitors': {'M2._spikes_per_cluster.checked': 400000}}}
 ASSUMPTIONS = ['negative ids ("unclustered") only enter _unique; _index_of is judged only under its '
-               'documented precondition (values present in a duplicate-free non-negative lookup)']
+               'documented precondition (values present in a duplicate-free non-negative lookup), plus the form the library itself builds: a lookup ending in -1']
 DTYPES = ['int32', 'int64', 'uint16', 'uint32']
 NSHARDS = 16
 POOL = [0, 2, 3, 5, 7]
@@ -143,6 +143,9 @@ def run_shard(desc, ctx):
                   'dtype': ['int32', 'int64', 'uint32'][(j + sh) % 3], 'shifted': bool(j % 2), 'rot': j}, ctx)
     for r in range(4 if tier == 'quick' else 60):
         run_case({'model': [int(desc['seed']), sh, r]}, ctx)
+    if sh == 4:
+        # 16-bit template ids and a cluster with more than 65536 spikes of one template
+        run_case({'model': [int(desc['seed']), sh, 5000], 'big_counts': True}, ctx)
     if sh == 0:
         run_case({'empties': True}, ctx)
 
@@ -324,6 +327,12 @@ def run_case(case, ctx):
              # every group empty (the requested clusters have no spike): the union is empty, not an error
              {k0: np.array([], dtype=np.int64), k0 + 1: np.array([], dtype=np.int64)}, {k0: np.array([])},
              {k0: np.array([], dtype=np.int64), k0 + 1: shuffled[k0]}]
+    if n >= 6:
+        # groups that are overlapping windows of ONE id array whose lengths add up to the length of that array (and a group
+        # repeated under two keys)
+        base_ = np.sort(rngf.permutation(3 * n)[:n]).astype(np.int64)
+        forms.append({k0: base_[:n // 2], k0 + 1: base_[n // 2 - 2:n - 2]})
+        forms.append({k0: base_[:n // 3], k0 + 1: base_[n // 3:n - n // 3], k0 + 2: base_[:n // 3]})
     for fm in forms:
         rr = call(pa._flatten_per_cluster, fm)
         exp = np.unique(np.concatenate([np.asarray(v) for v in fm.values()]))
@@ -343,6 +352,16 @@ def run_case(case, ctx):
         d = same(rr.value, exp, dtype=False)
         if d:
             ctx.violation('index_of_mismatch', case, d, feats)
+    # the lookup ends with -1, as the library's own densifying code builds it (np.r_[channel_ids, -1]): -1 in the array is then
+    # found at that position
+    lk_m1 = np.r_[np.asarray(ids_present[::-1], dtype=np.int64), -1]
+    arr_m1 = np.r_[np.asarray(sc, dtype=np.int64)[:50], -1, -1]
+    rr = call(pa._index_of, arr_m1, lk_m1)
+    pos_m1 = {int(v): i for i, v in enumerate(lk_m1.tolist())}
+    exp_m1 = np.array([pos_m1[int(v)] for v in arr_m1.tolist()])
+    if not rr.ok or same(rr.value, exp_m1, dtype=False):
+        ctx.violation('index_of_mismatch' if rr.ok else 'raised', dict(case, lookup=lk_m1.tolist()[-6:]), '_index_of with a lookup ending in -1: %s' % (
+            rr.exc if not rr.ok else same(rr.value, exp_m1, dtype=False)), dict(feats, function='_index_of', minus_one_in_lookup=True), tb=rr.tb)
     # a run of calls whose largest lookup id grows (and shrinks) by one from call to call
     if case['rot'] % 16 == 3:
         for top_ in list(range(1, 20)) + list(range(20, 0, -1)) + [3, 4, 5, 4, 8, 16, 17]:
@@ -385,7 +404,17 @@ def run_case(case, ctx):
 def _model_case(case, ctx):
     from phylib.io.model import load_model
     rng = np.random.default_rng(case['model'])
-    spec = random_spec(rng, clusters=['same', 'curated', 'absent'][int(rng.integers(0, 3))],
+    if case.get('big_counts'):
+        spec = random_spec(rng, clusters='same', dtype_ids='uint16', ns=70000, nt=3, nc=4, spikeless='none', n_samples=400000)
+        st_ = np.ones(70000, dtype=spec.spike_templates.dtype)
+        st_[:2000] = 0
+        st_[-2000:] = 2
+        spec.spike_templates = st_
+        sc_ = st_.copy()
+        sc_[st_ == 2] = 1            # cluster 1 = 66000 spikes of template 1 + 2000 of template 2
+        spec.spike_clusters = sc_
+    else:
+      spec = random_spec(rng, clusters=['same', 'curated', 'absent'][int(rng.integers(0, 3))],
                        sparse_templates=bool(rng.integers(0, 2)),
                        dtype_ids=DTYPES[int(rng.integers(0, 4))], ns=int(rng.integers(10, 80)),
                        spikeless=['none', 'first', 'middle'][int(rng.integers(0, 3))])
